@@ -898,6 +898,14 @@ def _check_dispatch(prog: Program, rep: Report):
             if t[0] == "eq" and contains(t, ("call", ("global", "set"), (I,), ())):
                 uniq = cfg.dominates(a, rn)
         ok = good_call and uniq
+        if not good_call and uniq and rt[0] == "call" and rt[2] == (D,) and not rt[3]:
+            # collators[that index] behind a fallback for a missing / empty entry ('x or default', 'x if i < len(..) else None'):
+            # every read of the collator list uses the batch's dataset index - which collator the fallback stands in for is a
+            # matter of how the list was built (G9.offset-table) - not decided here
+            subs_ = [x_ for a_ in fa.alternatives(rt[1]) for x_ in subterms(a_)
+                     if isinstance(x_, tuple) and len(x_) == 3 and x_[0] == "sub" and x_[1] == ("self", "collators")]
+            if subs_ and all(x_[2] == first for x_ in subs_):
+                ok = None
         why = "asserts a single dataset index, then collators[that index](samples)" if ok else (
             ("the collator is not selected by the batch's dataset index / not applied to the sample part; " if not good_call
              else "") + ("no assertion that all samples of the batch come from one dataset precedes the dispatch"
